@@ -8,6 +8,7 @@ for d in seeded/*/; do
   out=$(tools/seeded.sh try $n $p 2>&1)
   rc=$(echo "$out" | grep -o "exit\[$p\]=[0-9]*" | cut -d= -f2)
   key=$(echo "$out" | grep -m1 "^violation" | sed 's/.*key=\([^ ]*\).*/\1/')
-  echo "$n $p exit=$rc $key"
+  exp=$(python3 -c "import json;print('expected-quiet' if json.load(open('$d/meta.json')).get('not_caught') else '')")
+  echo "$n $p exit=$rc $key $exp"
   find /verif/replays -name '*.json' -delete
 done
